@@ -55,6 +55,13 @@ BASES = [
          {"requests": [{"n": 1500, "k": "fw"}, {"n": 700, "k": "write", "w": 300}, {"n": 10, "k": "cl", "close": True}], "sndbuf": 512},
          {"requests": [{"n": 50, "k": "cl"}], "sndbuf": 512, "delay": 0.2},
      ], "bystander": 1},
+    # an IPv6 listener: accept() hands over 4-tuple peer addresses (set-up faults must be contained
+    # whatever the shape of the address); only the set-up and accept placements are run for this one
+    {"adj": {"threads": 1, "channel_request_lookahead": 0, "send_bytes": 1}, "sndbuf": 1024, "peer_family": "inet6", "setup_only": True,
+     "conns": [
+         {"requests": [{"n": 300, "k": "cl"}, {"n": 20, "k": "cl", "close": True}], "sndbuf": 1024},
+         {"requests": [{"n": 50, "k": "cl"}], "sndbuf": 1024, "delay": 0.2},
+     ], "bystander": 1},
 ]
 
 
@@ -284,6 +291,8 @@ def run_shard(spec):
         for n in range(naccept):
             for e in (errno.ECONNABORTED, errno.EMFILE, errno.ENOTCONN, errno.EINVAL, errno.ECONNRESET):
                 pl.append(((("L", 0), "accept", n), e))
+        if scn.get("setup_only"):
+            pl = [x for x in pl if x[0][1] in ("getsockopt", "setsockopt", "setblocking", "accept")]
         rng = random.Random(spec["seed"] + spec["part"])
         mine = pl[spec["part"] :: spec["parts"]]
         for i, (k, v) in enumerate(mine):
@@ -332,7 +341,7 @@ def run_shard(spec):
     else:
         rng = random.Random(spec["seed"])
         for _ in range(spec["n"]):
-            b = rng.randrange(len(BASES))
+            b = rng.randrange(3)
             scn = BASES[b]
             targets = [i for i in range(len(scn["conns"])) if i != scn.get("bystander")]
             faults = {}
